@@ -960,7 +960,8 @@ def run_diag(case, ctx, rs):
         # ---------------- ESS
         kw = dict(case["ess_kw"])
         with ArvizRecorder("ess") as rec:
-            kind, val = core.outcome(s.compute_ess, **kw)
+            # compute_ess on a representation it does not support may refuse with IndexError (accepted as refusal)
+            kind, val = core.outcome(s.compute_ess, refusal=core.REFUSAL_TYPES_BROAD, **kw)
         if kind == "crashed":
             ctx.violation("crash", {**cfg, "exc": type(val).__name__, "where": "compute_ess"}, detail=repr(val))
         elif kind == "refused":
